@@ -75,6 +75,33 @@ func fixtureDir() string {
 	return fixDir
 }
 
+// numbersDump: every kind of number the format has (ids, minutes, arguments, offsets, line
+// numbers, parent ids), in frames that resolve to the fixture sources.
+const numbersDump = `panic: boom
+
+goroutine 7 [chan receive, 12 minutes, locked to thread]:
+main.F1(0x5, {0xc000012340, 0x3}, {0xc000056000, 0x2, 0x8}, 0xc00007a000, 0xc00007b000, 0x4a1b20, 0xc000014088, 0x400921fb54442d18, 0x1, {0x45e0a0, 0xc000010250}, ...)
+	@FIX@/main.go:6 +0x1d
+main.(*T).M(0xc000014090, 0xff, 0x8000, 0x3f800000)
+	@FIX@/main.go:10 +0x2a fp=0xc000047f28 sp=0xc000047ef0 pc=0x45e1aa
+main.T.V({0x1, 0x2}, {0x4b2c11, 0x5}, 0xdeadbeef)
+	@FIX@/main.go:14 +0x31
+main.G(0x1, 0x2, 0x3, {0x0, 0x0})
+	@FIX@/main.go:18 +0x45
+...additional frames elided...
+created by main.main in goroutine 1
+	@FIX@/main.go:24 +0x9b
+
+goroutine 18 [select, 3 minutes]:
+main.G.func1(0x7)
+	@FIX@/main.go:19 +0x33
+created by main.G
+	@FIX@/main.go:19 +0x5c
+`
+
+var numberSpellings = []string{"", "0", "00", "007", "-1", "1e3", "x", "255", "65536", "2147483647", "2147483648", "4294967295", "4294967296",
+	"9223372036854775807", "9223372036854775808", "18446744073709551615", "18446744073709551616", "99999999999999999999", "340282366920938463463374607431768211456"}
+
 type c03Case struct {
 	X    []byte // "@FIX@" stands for the fixture directory
 	Mode int    // 0 plain, 1 naming, 2 guess paths + analyze sources
@@ -482,6 +509,29 @@ func TestC03(t *testing.T) {
 	st.class("kind_sequences", cnt)
 	st.exhaustive(fmt.Sprintf("line-kind sequences: %d kinds, length<=%d from the initial state, <=%d after each of %d parking prefixes, x{terminated,unterminated}", len(seqAlphabet), maxLen+1, maxLen, len(parkPrefixes)-1), cnt)
 	st.sample(map[string]any{"kind_sequence": strings.Split(string((&seqCase{Prefix: parkPrefixes[9], Seq: []int{7, 0, 4}}).bytes()), "\n")})
+
+	// (d) every number of a dump whose frames point into the fixture sources, replaced by
+	// every boundary spelling, under the plain and the source-analysing option set.
+	var ncnt int64
+	locs := reDigits.FindAllIndex([]byte(numbersDump), -1)
+	idx := 0
+	for _, loc := range locs {
+		for _, repl := range numberSpellings {
+			for _, mode := range []int{0, 2} {
+				idx++
+				if !shardOwns(idx) {
+					continue
+				}
+				x := numbersDump[:loc[0]] + repl + numbersDump[loc[1]:]
+				if !c03Mut.Each(t, c03Case{X: []byte(x), Mode: mode, Muts: 1}) {
+					return
+				}
+				ncnt++
+			}
+		}
+	}
+	st.count(ncnt, ncnt)
+	st.class("number_boundary_substitutions", ncnt)
 
 	a := c03Mut
 	a.Checks = n(2500, 20000)
